@@ -182,9 +182,9 @@ Proof.
   - now apply nodup_aset.
 Qed.
 
-Lemma R_export_set fx c a n v : R c a -> R (export_set fx c n v) (spec_export1 fx a n v).
+Lemma R_export_set c a n v : R c a -> R (export_set c n v) (spec_export1 a n v).
 Proof.
-  intro HR. unfold export_set, spec_export1. destruct (fx_export fx); [|now apply R_env_set].
+  intro HR. unfold export_set, spec_export1.
   destruct HR as (R1 & R2 & R3 & R4 & R5).
   unfold R, vget in *; cbn [locals envp cwd prev vars ghost acwd aold].
   split; [|split; [|split; [|split; assumption]]].
@@ -337,8 +337,8 @@ Proof.
 Qed.
 
 (* ------------------------------------------------------------------ export *)
-Lemma export_loop_render fx w ps : forall c a, R c a -> forallb wf_asg ps = true ->
-  exists c', export_loop fx w c (map asg_token ps) = (c', true) /\ R c' (spec_export fx a (map asg_pair ps)).
+Lemma export_loop_render w ps : forall c a, R c a -> forallb wf_asg ps = true ->
+  exists c', export_loop w c (map asg_token ps) = (c', true) /\ R c' (spec_export a (map asg_pair ps)).
 Proof.
   induction ps as [|p r IH]; intros c a HR H; cbn [map export_loop spec_export].
   - exists c. split; [reflexivity|assumption].
@@ -413,29 +413,80 @@ Proof.
       unfold rest_plain. clear. generalize (length r). intro k. induction k; cbn; auto.
 Qed.
 
-Definition fields_n (seps : str) (k : nat) (o : option str) : list str :=
-  match o with Some x => splitn_on seps k x | None => [] end.
+Definition nosep (seps : str) (c : char) : bool := negb (memb c seps).
 
-Lemma R_read_assign_n seps ns : ns <> [] -> forall c a o, R c a ->
-  R (read_assign c ns (fields_n seps (length ns) o)) (spec_assign a (combine ns (cut_fields seps (length ns) o))).
+Lemma break_none seps x : forall f, break_sep seps x = (f, None) -> x = f /\ forallb (nosep seps) f = true.
+Proof.
+  induction x as [|c r IH]; cbn; intros f H.
+  - injection H as <-. split; reflexivity.
+  - destruct (memb c seps) eqn:M; [discriminate|].
+    destruct (break_sep seps r) as [f0 o0]. injection H as <- ->.
+    destruct (IH f0 eq_refl) as [-> H2]. split; [reflexivity|]. cbn [forallb]. rewrite H2, andb_true_r.
+    unfold nosep. now rewrite M.
+Qed.
+
+Lemma drop_nosep seps f : forallb (nosep seps) f = true -> drop_seps seps f = f.
+Proof.
+  destruct f as [|c r]; cbn [forallb drop_seps]; [reflexivity|]. intro H. apply andb_true_iff in H as [H _].
+  unfold nosep in H. apply negb_true_iff in H. now rewrite H.
+Qed.
+
+Lemma trim_nosep seps f : forallb (nosep seps) f = true -> trim_seps seps f = f.
+Proof.
+  intro H. unfold trim_seps. rewrite (drop_nosep _ _ H).
+  assert (H' : forallb (nosep seps) (rev f) = true).
+  { apply forallb_forall. intros x Hx. apply in_rev in Hx. revert x Hx. now apply forallb_forall. }
+  rewrite (drop_nosep _ _ H'). apply rev_involutive.
+Qed.
+
+Definition fl (dflt : bool) (seps : str) (k : nat) (o : option str) : list str :=
+  match o with Some x => fields_loop dflt seps k x | None => [] end.
+
+Lemma R_read_assign_n dflt seps ns : ns <> [] -> forall c a o, R c a ->
+  R (read_assign c ns (fl dflt seps (length ns) o)) (spec_assign a (combine ns (cut_runs dflt seps (length ns) o))).
 Proof.
   induction ns as [|n r IH]; intros NE c a o HR; [congruence|].
   destruct r as [|n2 r].
-  - cbn [read_assign length cut_fields combine spec_assign]. destruct o as [x|]; cbn [fields_n splitn_on join_sp]; now apply R_set_env.
-  - cbn [length] in *. change (cut_fields seps (S (S (length r))) o)
+  - cbn [read_assign length cut_runs combine spec_assign]. destruct o as [x|]; cbn [fl fields_loop join_sp]; now apply R_set_env.
+  - cbn [length] in *.
+    change (cut_runs dflt seps (S (S (length r))) o)
       with (match o with
-            | None => [] :: cut_fields seps (S (length r)) None
-            | Some x => let (f, o') := break_sep seps x in f :: cut_fields seps (S (length r)) o'
+            | None => [] :: cut_runs dflt seps (S (length r)) None
+            | Some x => let x1 := if dflt then drop_seps seps x else x in
+                        let (f, o') := break_sep seps x1 in f :: cut_runs dflt seps (S (length r)) o'
             end).
-    change (read_assign c (n :: n2 :: r) (fields_n seps (S (S (length r))) o))
-      with (read_assign (set_env c n (match fields_n seps (S (S (length r))) o with v :: _ => v | [] => [] end)) (n2 :: r)
-              (tl (fields_n seps (S (S (length r))) o))).
+    change (read_assign c (n :: n2 :: r) (fl dflt seps (S (S (length r))) o))
+      with (read_assign (set_env c n (match fl dflt seps (S (S (length r))) o with v :: _ => v | [] => [] end)) (n2 :: r)
+              (tl (fl dflt seps (S (S (length r))) o))).
     destruct o as [x|].
-    + cbn [fields_n]. change (splitn_on seps (S (S (length r))) x)
-        with (let (f, o') := break_sep seps x in f :: fields_n seps (S (length r)) o').
-      destruct (break_sep seps x) as [f o'] eqn:B. cbn [tl combine spec_assign].
-      apply (IH ltac:(discriminate) _ _ o'). now apply R_set_env.
-    + cbn [fields_n tl combine spec_assign]. apply (IH ltac:(discriminate) _ _ None). now apply R_set_env.
+    + cbn [fl]. change (fields_loop dflt seps (S (S (length r))) x)
+        with (let rest1 := if dflt then drop_seps seps x else x in
+              match break_sep seps rest1 with
+              | (f, Some r') => f :: fields_loop dflt seps (S (length r)) r'
+              | (_, None) => [if dflt then trim_seps seps rest1 else rest1]
+              end).
+      cbv zeta. set (x1 := if dflt then drop_seps seps x else x).
+      destruct (break_sep seps x1) as [f [r'|]] eqn:B; cbn [tl combine spec_assign].
+      * apply (IH ltac:(discriminate) _ _ (Some r')). now apply R_set_env.
+      * destruct (break_none _ _ _ B) as [E NS].
+        assert (HV : (if dflt then trim_seps seps x1 else x1) = f).
+        { rewrite E. destruct dflt; [now apply trim_nosep|reflexivity]. }
+        rewrite HV. apply (IH ltac:(discriminate) _ _ None). now apply R_set_env.
+    + cbn [fl tl combine spec_assign]. apply (IH ltac:(discriminate) _ _ None). now apply R_set_env.
+Qed.
+
+Lemma ifs_chars_raw c a envs : R c a ->
+  (match aget envs s_IFS, vget a s_IFS with
+   | None, Some (ev, true) => match aget (ghost a) s_IFS with Some lv => negb (str_eqb lv ev) | None => false end
+   | _, _ => false
+   end) = false ->
+  ifs_chars c envs = spec_ifs a envs.
+Proof.
+  intros (R1 & R2 & _) K. unfold ifs_chars, spec_ifs, get_env.
+  destruct (aget envs s_IFS) as [x|]; [reflexivity|].
+  rewrite (R2 s_IFS), (R1 s_IFS). destruct (vget a s_IFS) as [[v [|]]|]; try reflexivity.
+  destruct (aget (ghost a) s_IFS) as [lv|]; [|reflexivity].
+  apply negb_false_iff, str_eqb_eq in K. now subst.
 Qed.
 
 Lemma ifs_chars_spec c a envs : R c a ->
@@ -444,13 +495,7 @@ Lemma ifs_chars_spec c a envs : R c a ->
    | _, _ => false
    end) = false ->
   (if is_empty (ifs_chars c envs) then default_seps else ifs_chars c envs) = spec_seps a envs.
-Proof.
-  intros (R1 & R2 & _) K. unfold ifs_chars, spec_seps, get_env.
-  destruct (aget envs s_IFS) as [x|]; [reflexivity|].
-  rewrite (R2 s_IFS), (R1 s_IFS). destruct (vget a s_IFS) as [[v [|]]|]; try reflexivity.
-  destruct (aget (ghost a) s_IFS) as [lv|]; [|reflexivity].
-  apply negb_false_iff, str_eqb_eq in K. now subst.
-Qed.
+Proof. intros HR K. unfold spec_seps. now rewrite (ifs_chars_raw c a envs HR K). Qed.
 
 Lemma split_into_fields_eq c line envs :
   split_into_fields c line envs =
@@ -459,7 +504,8 @@ Proof. unfold split_into_fields. cbv zeta. destruct (is_empty (ifs_chars c envs)
 
 Lemma split_into_fields_n_eq c line envs k :
   split_into_fields_n c line envs k =
-  splitn_on (if is_empty (ifs_chars c envs) then default_seps else ifs_chars c envs) k line.
+  fields_loop (is_empty (ifs_chars c envs))
+    (if is_empty (ifs_chars c envs) then default_seps else ifs_chars c envs) k line.
 Proof. unfold split_into_fields_n. cbv zeta. destruct (is_empty (ifs_chars c envs)); reflexivity. Qed.
 
 Lemma avalues_child inh envs k : NoDup (map fst inh) -> NoDup (map fst envs) ->
@@ -504,8 +550,8 @@ Proof. intro H. unfold plain. cbn [drain tag_none]. now rewrite H. Qed.
 
 Definition dispatch (fx : fixes) (w : world) (c : st) (envs : alist) (x : str) (r : list token) (here : option str) : st * outcome :=
   let rest := (TNone, x) :: r in
-  if str_eqb x s_cd then cd_run fx w c rest
-  else if str_eqb x s_export then let (s', ok) := export_loop fx w c rest in (s', OStatus ok)
+  if str_eqb x s_cd then cd_run w c rest
+  else if str_eqb x s_export then let (s', ok) := export_loop w c rest in (s', OStatus ok)
   else if str_eqb x s_read then read_run fx c envs rest here
   else if str_eqb x s_unset then unset_run c rest
   else (c, OChild (map snd rest) (child_env (envp c) envs) (cwd c)).
@@ -553,7 +599,7 @@ Proof.
     rewrite run_proc_cmd0 by reflexivity. unfold dispatch.
     change (str_eqb s_export s_cd) with false. rewrite str_eqb_refl. cbn iota.
     cbn [export_loop snd]. rewrite str_eqb_refl.
-    destruct (export_loop_render fx w ps c a HR WF) as (c' & E & HR'). rewrite E. cbn [fst snd]. split; [assumption|reflexivity].
+    destruct (export_loop_render w ps c a HR WF) as (c' & E & HR'). rewrite E. cbn [fst snd]. split; [assumption|reflexivity].
   - (* Unset *)
     rewrite run_proc_cmd0 by reflexivity. unfold dispatch, plain.
     change (str_eqb s_unset s_cd) with false. change (str_eqb s_unset s_export) with false.
@@ -574,9 +620,9 @@ Proof.
               | _, _ => false end) eqn:SH; [discriminate|].
     unfold spec_read. fold (input_line line).
     destruct (fx_read fx).
-    + rewrite split_into_fields_n_eq, (ifs_chars_spec c a pp HR SH).
-      change (splitn_on (spec_seps a pp) (length (read_names names)) (input_line line))
-        with (fields_n (spec_seps a pp) (length (read_names names)) (Some (input_line line))).
+    + rewrite split_into_fields_n_eq, (ifs_chars_spec c a pp HR SH), (ifs_chars_raw c a pp HR SH).
+      change (fields_loop (is_empty (spec_ifs a pp)) (spec_seps a pp) (length (read_names names)) (input_line line))
+        with (fl (is_empty (spec_ifs a pp)) (spec_seps a pp) (length (read_names names)) (Some (input_line line))).
       apply R_read_assign_n; [destruct names; discriminate|assumption].
     + rewrite split_into_fields_eq, (ifs_chars_spec c a pp HR SH).
       change (split_on (spec_seps a pp) (input_line line)) with (fields_of (spec_seps a pp) (Some (input_line line))).
@@ -605,12 +651,7 @@ Proof.
       unfold known in K. unfold cd_run, spec_cd. cbn [map snd length N.of_nat Pos.of_succ_nat N.ltb N.compare Pos.compare Pos.compare_cont Nat.eqb].
       assert (EL : expand_lookup c s_HOME = match vget a s_HOME with Some (v, _) => Some v | None => None end).
       { unfold expand_lookup, get_env. rewrite (R1 s_HOME), (R2 s_HOME). destruct (vget a s_HOME) as [[x [|]]|]; reflexivity. }
-      assert (HH : (if fx_cd fx then expand_lookup c s_HOME
-                    else Some match aget (envp c) s_HOME with Some h => h | None => [] end) =
-                   match vget a s_HOME with Some (h, _) => Some h | None => None end).
-      { destruct (fx_cd fx); [exact EL|]. rewrite (R1 s_HOME).
-        destruct (vget a s_HOME) as [[h [|]]|]; [reflexivity|discriminate|discriminate]. }
-      rewrite HH, R4, R5. unfold cd_target. clear HH EL K.
+      rewrite EL, R4, R5. unfold cd_target. clear EL K.
       destruct (vget a s_HOME) as [[h b]|]; [|split; [assumption|reflexivity]].
       unfold join_path, resolve.
       destruct (str_eqb h s_dash).
@@ -672,13 +713,13 @@ Proof.
   unfold spec_assign1, vget; cbn [vars]. now rewrite aget_aset, H1.
 Qed.
 
-Lemma spec_export_keep fx ps : forall a n, existsb (fun p => str_eqb (fst p) n) ps = false ->
-  vget (spec_export fx a ps) n = vget a n /\ acwd (spec_export fx a ps) = acwd a.
+Lemma spec_export_keep ps : forall a n, existsb (fun p => str_eqb (fst p) n) ps = false ->
+  vget (spec_export a ps) n = vget a n /\ acwd (spec_export a ps) = acwd a.
 Proof.
   induction ps as [|[m v] r IH]; intros a n H; cbn [spec_export]; [split; reflexivity|].
   cbn [existsb fst] in H. apply orb_false_iff in H as [H1 H2].
-  destruct (IH (spec_export1 fx a m v) n H2) as [E1 E2]. rewrite E1, E2.
-  unfold spec_export1, spec_setenv1, vget. destruct (fx_export fx); cbn [vars acwd]; now rewrite aget_aset, H1.
+  destruct (IH (spec_export1 a m v) n H2) as [E1 E2]. rewrite E1, E2.
+  unfold spec_export1, vget. cbn [vars acwd]. now rewrite aget_aset, H1.
 Qed.
 
 Lemma combine_names n ns : forall (l : list str), existsb (fun m => str_eqb m n) ns = false ->
@@ -692,11 +733,11 @@ Lemma spec_step_pwd fx w a o : pwd_ok a -> touches s_PWD o = false -> pwd_ok (fs
 Proof.
   unfold pwd_ok. intros P T. destruct o as [ps|ps prog args|ps|n|ps names line|arg|n]; cbn [spec_step fst touches] in *; try assumption.
   - destruct (spec_assign_keep (map asg_pair ps) a s_PWD) as [E1 E2]; [now rewrite existsb_map_eq|]. now rewrite E1, E2.
-  - destruct (spec_export_keep fx (map asg_pair ps) a s_PWD) as [E1 E2]; [now rewrite existsb_map_eq|]. now rewrite E1, E2.
+  - destruct (spec_export_keep (map asg_pair ps) a s_PWD) as [E1 E2]; [now rewrite existsb_map_eq|]. now rewrite E1, E2.
   - unfold spec_unset1, vget; cbn [vars acwd]. rewrite aget_adel, T. exact P.
-  - unfold spec_read. destruct (spec_assign_keep (combine (read_names names)
-        (cut_fields (spec_seps a (map asg_pair ps)) (length (read_names names)) (Some (input_line line)))) a s_PWD) as [E1 E2];
-      [now apply combine_names|]. now rewrite E1, E2.
+  - unfold spec_read. cbv zeta. match goal with |- context [combine ?ns ?l] =>
+      destruct (spec_assign_keep (combine ns l) a s_PWD) as [E1 E2]; [now apply combine_names|] end.
+    now rewrite E1, E2.
   - unfold spec_cd. destruct (cd_target a arg) as [full|]; [|exact P]. destruct (resolve w full) as [d|]; [|exact P].
     destruct (str_eqb (acwd a) d); [exact P|]. cbn [fst]. unfold vget, spec_setenv1; cbn [vars acwd].
     now rewrite aget_aset, str_eqb_refl.
@@ -737,18 +778,18 @@ Qed.
 Lemma assign_shadow_free ps : forall a, shadow_free a -> shadow_free (spec_assign a ps).
 Proof. induction ps as [|[m v] r IH]; intros a H; cbn; [exact H|]. apply IH. now apply assign1_shadow_free. Qed.
 
-Lemma export1_shadow_free fx a m v : fx_export fx = true -> shadow_free a -> shadow_free (spec_export1 fx a m v).
+Lemma export1_shadow_free a m v : shadow_free a -> shadow_free (spec_export1 a m v).
 Proof.
-  intros F H. unfold shadow_free, spec_export1, is_exported, vget in *. rewrite F; cbn [vars ghost].
+  intros H. unfold shadow_free, spec_export1, is_exported, vget in *. cbn [vars ghost].
   rewrite aget_aset, aget_adel. sdes m s_IFS; [reflexivity|exact H].
 Qed.
 
-Lemma export_shadow_free fx ps : fx_export fx = true -> forall a, shadow_free a -> shadow_free (spec_export fx a ps).
-Proof. intro F. induction ps as [|[m v] r IH]; intros a H; cbn; [exact H|]. apply IH. now apply export1_shadow_free. Qed.
+Lemma export_shadow_free ps : forall a, shadow_free a -> shadow_free (spec_export a ps).
+Proof. induction ps as [|[m v] r IH]; intros a H; cbn; [exact H|]. apply IH. now apply export1_shadow_free. Qed.
 
-Lemma step_shadow_free fx w a o : fx_export fx = true -> shadow_free a -> shadow_free (fst (spec_step fx w a o)).
+Lemma step_shadow_free fx w a o : shadow_free a -> shadow_free (fst (spec_step fx w a o)).
 Proof.
-  intros F H. destruct o as [ps|ps prog args|ps|n|ps names line|arg|n]; cbn [spec_step fst]; try assumption.
+  intros H. destruct o as [ps|ps prog args|ps|n|ps names line|arg|n]; cbn [spec_step fst]; try assumption.
   - now apply assign_shadow_free.
   - now apply export_shadow_free.
   - unfold shadow_free, spec_unset1, is_exported, vget in *; cbn [vars ghost]. rewrite !aget_adel.
@@ -763,14 +804,13 @@ Proof.
     + rewrite aget_adel. change (str_eqb s_PWD s_IFS) with false. exact H.
 Qed.
 
-Definition fx_all : fixes := mkfx true true true.
+Definition fx_all : fixes := mkfx true.
 
 Lemma known_none_all a o : shadow_free a -> known fx_all a o = None.
 Proof.
-  intro H. destruct o as [ps|ps prog args|ps|n|ps names line|arg|n]; cbn [known fx_all fx_read fx_cd]; try reflexivity.
+  intro H. destruct o as [ps|ps prog args|ps|n|ps names line|arg|n]; cbn [known fx_all fx_read]; try reflexivity.
   - unfold shadow_free, is_exported in H. destruct (aget (map asg_pair ps) s_IFS); [reflexivity|].
     destruct (vget a s_IFS) as [[ev [|]]|]; try reflexivity. now rewrite (H eq_refl).
-  - destruct arg; reflexivity.
 Qed.
 
 Lemma known_hist_none_all w : forall ops a, shadow_free a -> known_hist fx_all w a ops = false.
@@ -788,4 +828,63 @@ Proof.
   unfold shadow_free, is_exported, abs, vget; cbn [vars ghost]. rewrite aget_app, aget_map_tag.
   destruct (aget (envp c) s_IFS) as [v|]; [intros _; apply HS; discriminate|].
   rewrite aget_map_tag. destruct (aget (locals c) s_IFS); discriminate.
+Qed.
+
+(* ------------------------------------------------------------------ the remainder is a piece of the line *)
+Lemma drop_seps_suffix seps s : exists p, s = p ++ drop_seps seps s.
+Proof.
+  induction s as [|c r [p IH]]; cbn; [now exists []|]. destruct (memb c seps); [|now exists []].
+  exists (c :: p). cbn. now rewrite <- IH.
+Qed.
+
+Lemma trim_seps_infix seps s : exists p q, s = p ++ trim_seps seps s ++ q.
+Proof.
+  unfold trim_seps. destruct (drop_seps_suffix seps s) as [p Hp].
+  destruct (drop_seps_suffix seps (rev (drop_seps seps s))) as [q Hq].
+  exists p, (rev q). rewrite Hp at 1. f_equal.
+  rewrite <- (rev_involutive (drop_seps seps s)) at 1. rewrite Hq at 1. now rewrite rev_app_distr.
+Qed.
+
+Lemma break_some seps x : forall f r, break_sep seps x = (f, Some r) -> exists c, x = f ++ c :: r.
+Proof.
+  induction x as [|c x IH]; cbn; intros f r H; [discriminate|].
+  destruct (memb c seps); [injection H as <- <-; now exists c|].
+  destruct (break_sep seps x) as [f0 o0]. injection H as <- ->.
+  destruct (IH f0 r eq_refl) as [d ->]. now exists d.
+Qed.
+
+Lemma last_cons_ne {A} (a : A) l d : l <> [] -> last (a :: l) d = last l d.
+Proof. destruct l; [congruence|reflexivity]. Qed.
+
+Lemma cut_runs_ne dflt seps k o : cut_runs dflt seps (S k) o <> [].
+Proof.
+  destruct k; cbn; [discriminate|]. destruct o as [x|]; [|discriminate].
+  destruct (break_sep seps (if dflt then drop_seps seps x else x)); discriminate.
+Qed.
+
+Lemma cut_runs_none_last dflt seps k : last (cut_runs dflt seps k None) [] = [].
+Proof.
+  induction k as [|k IH]; [reflexivity|]. destruct k as [|k]; [reflexivity|].
+  change (cut_runs dflt seps (S (S k)) None) with ([] :: cut_runs dflt seps (S k) None).
+  rewrite last_cons_ne by apply cut_runs_ne. exact IH.
+Qed.
+
+(** "the remainder in the last": what the last name receives is a contiguous piece of the line *)
+Theorem cut_runs_last_infix dflt seps : forall k x,
+  exists p q, x = p ++ last (cut_runs dflt seps k (Some x)) [] ++ q.
+Proof.
+  induction k as [|k IH]; intro x; [exists x, []; cbn; now rewrite app_nil_r|].
+  destruct k as [|k].
+  - cbn [cut_runs last]. destruct dflt; [apply trim_seps_infix|]. exists [], []. cbn. now rewrite app_nil_r.
+  - change (cut_runs dflt seps (S (S k)) (Some x))
+      with (let x1 := if dflt then drop_seps seps x else x in
+            let (f, o) := break_sep seps x1 in f :: cut_runs dflt seps (S k) o).
+    cbv zeta. set (x1 := if dflt then drop_seps seps x else x).
+    assert (HX : exists p0, x = p0 ++ x1).
+    { unfold x1. destruct dflt; [apply drop_seps_suffix|now exists []]. }
+    destruct HX as [p0 HX]. destruct (break_sep seps x1) as [f [r|]] eqn:B.
+    + rewrite last_cons_ne by apply cut_runs_ne. destruct (break_some _ _ _ _ B) as [c E].
+      destruct (IH r) as (p & q & Hr). exists (p0 ++ f ++ c :: p), q.
+      rewrite HX, E. rewrite Hr at 1. rewrite <- !app_assoc. cbn. reflexivity.
+    + rewrite last_cons_ne by apply cut_runs_ne. rewrite cut_runs_none_last. exists x, []. cbn. now rewrite app_nil_r.
 Qed.
